@@ -771,12 +771,48 @@ def run_lines_stream(prop, stream, tier, seed, workdir, scale=1):
             "model_runs": int(m.group(1)) if m else 0}
 
 
+def run_hammer_stream(prop, stream, tier, seed, workdir, scale=1):
+    """free-running real threads on plain generated functions whose results are stored: any body execution or
+    wrong value is a violation (holds for every schedule); silence proves nothing"""
+    ok, msg, _ = build_harness()
+    if not ok:
+        return {"error": msg}
+    reps, threads, rounds = stream["budget"][tier]
+    acc = {"steps": 0, "events": {}, "configs": set(), "by_flavour_policy": {}, "nontrivial": set(), "samples": []}
+    verdicts = []
+    for r in range(reps * scale):
+        p = subprocess.run([os.path.join(BIN, "hammer"), str(seed + r), str(threads), str(rounds)], stdout=subprocess.PIPE,
+                           stderr=subprocess.PIPE, env=ENV, text=True, timeout=600)
+        if p.returncode != 0:
+            verdicts.append({"kind": "BAD", "id": None, "episode": 0, "step": 0, "text": f"hammer exited {p.returncode}: {p.stderr[-300:]}"})
+            continue
+        for line in p.stdout.splitlines():
+            f = line.split("|")
+            if f[0] != "H":
+                continue
+            calls, execs, wrong = int(f[3]), int(f[4]), int(f[5])
+            acc["steps"] += calls
+            acc["events"]["parallel-calls"] = acc["events"].get("parallel-calls", 0) + calls
+            acc["nontrivial"].add(hash((r, f[1])))
+            if len(acc["samples"]) < 2:
+                acc["samples"].append(line)
+            rp = [f"# hammer {seed + r} {threads} {rounds}", line]
+            if execs > 0:
+                verdicts.append({"kind": "MON", "id": "C03", "episode": 0, "step": 0, "raw": rp,
+                                 "text": f"MON C03 :: {execs} body executions of {f[2]} among {calls} parallel calls for arguments whose result was already stored (free-running threads)"})
+            if wrong > 0:
+                verdicts.append({"kind": "MON", "id": "C18", "episode": 0, "step": 0, "raw": rp,
+                                 "text": f"MON C18 :: {wrong} of {calls} parallel calls of {f[2]} returned a value different from the stored result of the function"})
+    return {"episodes": reps * scale, "corpus_episodes": 0, "acc": acc, "verdicts": verdicts, "model_runs": 0}
+
+
 def run_sched_stream(prop, stream, tier, seed, workdir, scale=1):
     import sched_stream
     return sched_stream.run_sched_stream(prop, stream, tier, seed, workdir, scale)
 
 
-STREAM_RUNNERS = {"core": run_core_stream, "macro": run_macro_stream, "lines": run_lines_stream, "sched": run_sched_stream}
+STREAM_RUNNERS = {"core": run_core_stream, "macro": run_macro_stream, "lines": run_lines_stream, "sched": run_sched_stream,
+                  "hammer": run_hammer_stream}
 
 
 # ------------------------------------------------------------------------------------------------
